@@ -57,7 +57,7 @@ import onnx_ir as ir
 import jax2onnx.converter.ir_postprocess as M
 
 
-def unknown_shape_like_weakens(d0: int, d1: int, k0: int, k1: int) -> bool:
+def unknown_shape_like_weakens(d0: int, d1: int, k0: int, k1: int, rank_only: bool) -> bool:
     """
     pre: 0 <= d0 <= 5 and 0 <= d1 <= 5 and 0 <= k0 <= 2 and 0 <= k1 <= 2
     post: _
@@ -65,8 +65,8 @@ def unknown_shape_like_weakens(d0: int, d1: int, k0: int, k1: int) -> bool:
     dims = []
     for d, k in ((d0, k0), (d1, k1)):
         dims.append(d if k == 0 else (ir.SymbolicDim("B") if k == 1 else ir.SymbolicDim(None)))
-    shp = ir.Shape(dims)
-    out = M._unknown_shape_like(shp)
+    val = ir.Value(name="v", type=ir.TensorType(ir.DataType.FLOAT), shape=ir.Shape(dims))
+    out = M._unknown_shape_like(val, force_rank_only=rank_only)
     if out is None:
         return True
     if len(out) != 2:
